@@ -238,9 +238,9 @@ theorem sort_respectsM : ImplRespectsM [.val .anys, .val .any] (eager sort) := b
 theorem natKey_mp {x x' : GoVal} (h : MP x x') : RRel true Eq (natKey x) (natKey x') := by
   rcases h.cases_rigid with rfl | ⟨r1, r2⟩
   · exact RRel.of_eq (fun _ => rfl) rfl
-  · have hs := sprint_mp h
-    have e1 : natKey x = (sprint x).bind fun s => caseRes (StrF.upcase s) := by cases x <;> first | rfl | simp [rigidM] at r1
-    have e2 : natKey x' = (sprint x').bind fun s => caseRes (StrF.upcase s) := by cases x' <;> first | rfl | simp [rigidM] at r2
+  · have hs := sprintRR_mp h
+    have e1 : natKey x = (sprintR x).bind fun s => caseRes (StrF.upcase s) := by cases x <;> first | rfl | simp [rigidM] at r1
+    have e2 : natKey x' = (sprintR x').bind fun s => caseRes (StrF.upcase s) := by cases x' <;> first | rfl | simp [rigidM] at r2
     rw [e1, e2]
     exact RRel.bind hs (fun b b' e => by subst e; exact RRel.of_eq (fun _ => rfl) rfl)
 
